@@ -244,3 +244,35 @@ VARIANTS += [
     V('G-eq-12', 'E', ALL, SP, 'BaseProxy._incref', r'exitpriority=10', 'exitpriority=5'),
     V('G-eq-13', 'E', ALL, SO, 'read_record', r"request_id, num_bytes, encoder = data\[:-1\]\.decode\(\)\.split\(\)", "header = data[:-1].decode()\n    request_id, num_bytes, encoder = header.split()"),
 ]
+
+# ---------------------------------------------------------------------- plausible maintenance edits that keep every property
+VARIANTS += [
+    V('G-mt-01', 'E', ALL, SV, 'Server._enqueue', r"(\n        fut\.data\['t1'\] = perf_counter\(\)\n)", r"\1        logger.debug('request %s admitted; backlog %d', uid, len(pipeline))\n"),
+    V('G-mt-02', 'E', ALL, SV, 'Server.call', r'fut = self\._enqueue\(x, timeout, backpressure\)', 'if timeout <= 0:\n            raise ValueError("timeout must be positive")\n        fut = self._enqueue(x, timeout, backpressure)'),
+    V('G-mt-03', 'E', ALL, SV, 'Server._gather_output', r"(\n                fut\.data\['t2'\] = perf_counter\(\)\n)", r"\1                fut.data['gathered'] = True\n"),
+    V('G-mt-04', 'E', ALL, WK, 'Worker._start_single', r'(\n        q_uid = queue\.SimpleQueue\(\)\n)', r'\1        n_done = 0\n'),
+    V('G-mt-05', 'E', ALL, WK, 'Worker._start_batch', r'if batch_size_log_cadence and n_batches == 0:', 'if batch_size_log_cadence and (n_batches == 0):'),
+    V('G-mt-06', 'E', ALL, SL, 'EnsembleServlet._dequeue', r"(\n                    z\['n'\] \+= 1\n)", r"\1                    logger.debug('ensemble member %d answered request %s', idx, uid)\n"),
+    V('G-mt-07', 'E', ALL, SL, 'ThreadServlet.start', r"logger\.info\('adding worker <%s> in thread \.\.\.', sname\)", "logger.info('adding worker <%s> in a new thread ...', sname)"),
+    V('G-mt-08', 'E', ALL, ST, 'fifo_stream', r'(\n    feeder\.start\(\)\n)', r"\1    logger.debug('feeder %s started', name)\n"),
+    V('G-mt-09', 'E', ALL, ST, 'Buffer.__init__', r'assert 1 <= maxsize <= 10_000', 'assert 1 <= maxsize <= 100_000'),
+    V('G-mt-10', 'E', ALL, ST, 'Parmapper.__iter__', r"thread_name_prefix=self\._name \+ '-thread'", "thread_name_prefix=f'{self._name}-thread'"),
+    V('G-mt-11', 'E', ALL, SA, 'AsyncBuffer.__aiter__', r'await asyncio\.sleep\(0\.002\)', 'await asyncio.sleep(0.001)'),
+    V('G-mt-12', 'E', ALL, TE, 'tee', r'assert buffer_size >= 2', 'assert buffer_size >= 2, "buffer_size too small"'),
+    V('G-mt-13', 'E', ALL, CX, 'SpawnProcess.handle_exception', r"print\(f'Exception in", "print(f'Unhandled exception in", flags=0),
+    V('G-mt-14', 'E', ALL, CX, 'SpawnProcess.start', r"name=f'\{self\.name\}-LoggerThread'", "name=f'{self.name}-LogReaderThread'"),
+    V('G-mt-15', 'E', ALL, TH, 'Thread.run', r"tb = f'\[\{threading\.current_thread\(\)\.name\}\] ' \+ tb", "tb = '[' + threading.current_thread().name + '] ' + tb"),
+    V('G-mt-16', 'E', ALL, SP, 'Server._callmethod', r'(\n        try:\n            res = function\(\*args, \*\*kwds\))', r"\n        util.debug('calling %s', methodname)\1"),
+    V('G-mt-17', 'E', ALL, SP, 'managed', r'server = get_server\(\)\n', 'server = get_server()\n    util.debug("managed() called")\n'),
+    V('G-mt-18', 'E', ALL, RE, 'RemoteException.__init__', r"raise ValueError\(f'expecting no traceback but got: \{tb\}'\)", "raise ValueError(f'expecting no traceback object but got: {tb!r}')"),
+    V('G-mt-19', 'E', ALL, QU, 'IterableQueue.put_end', r"'`put_end` is called more than `num_suppliers` times'", "'put_end() was called more often than there are suppliers'"),
+    V('G-mt-20', 'E', ALL, QU, 'ResponsiveQueue._get_put', r'time_total = 3600 \* 24 if timeout is None else timeout', 'time_total = 86400 if timeout is None else timeout'),
+    V('G-mt-21', 'E', ALL, SO, 'SocketClient.__init__', r'self\._shutdown_timeout = 60', 'self._shutdown_timeout = 90'),
+    V('G-mt-22', 'E', ALL, SO, 'write_record', r'await writer\.drain\(\)', 'await writer.drain()\n    logger.debug("record %s written", request_id)'),
+    V('G-mt-23', 'E', ALL, QS, 'SingleLane.__init__', r'self\._closed = False', 'self._closed = False\n        self._n_put = 0'),
+    V('G-mt-24', 'E', ALL, WK, 'Worker._get_input_batch', r'(\n        self\._batch_get_called\.set\(\)\n)', r"\n        logger.debug('batch of %d', n)\1"),
+    V('G-mt-25', 'E', ALL, SV, 'AsyncServer.call', r'fut = await self\._enqueue\(x, timeout=timeout, backpressure=backpressure\)', 'fut = await self._enqueue(x, backpressure=backpressure, timeout=timeout)'),
+    V('G-mt-26', 'E', ALL, ST, 'Stream.map', r'self\.streamlets\.append\(Mapper\(self\.streamlets\[-1\], func, \*\*kwargs\)\)', 'mapper = Mapper(self.streamlets[-1], func, **kwargs)\n        self.streamlets.append(mapper)'),
+    V('G-mt-27', 'E', ALL, SL, 'SequentialServlet.stop', r'for s in self\._servlets:\n(\s+)s\.stop\(\)', r'for member in self._servlets:\n\1member.stop()'),
+    V('G-mt-28', 'E', ALL, PI, '_Pipe.send', r'self\._writer\.send\(obj\)', 'w = self._writer\n        w.send(obj)'),
+]
